@@ -13,6 +13,9 @@ MUTATORS = {"makedir", "makedirs", "create", "touch", "writebytes", "appendbytes
             "removetree", "copy", "move", "setinfo"}
 
 
+IO_OPS = {"open", "seek", "tell", "read", "readinto", "write", "truncate", "close"}
+
+
 class Finding:
     def __init__(self, props, kind, detail, step):
         self.props, self.kind, self.detail, self.step = props, kind, detail, step
@@ -34,7 +37,11 @@ def clusters_needed(op, g):
     return dirgrow + 1
 
 
-def check_history(cfg, ops, remount_every=1, want=None, stop_on_first=False):
+def _open_paths(w):
+    return {getattr(h, "name", None) for h in w.handles.values()}
+
+
+def check_history(cfg, ops, remount_every=1, want=None, stop_on_first=False, io_frame=False):
     """-> (findings, stats).  want: optional set of kinds to look for (speeds up shrinking)."""
     findings = []
     stats = {"ops": 0, "errors": {}, "enospc": 0}
@@ -49,6 +56,22 @@ def check_history(cfg, ops, remount_every=1, want=None, stop_on_first=False):
         for i, op in enumerate(ops):
             stats["ops"] += 1
             before_img = None
+            if io_frame and op[0] in ("seek", "write", "truncate") and op[1] in w.rhandles:
+                # stay inside C02's domain (also while shrinking a history): no seek past end-of-file,
+                # no write / truncate() with the position beyond end-of-file
+                rh = w.rhandles[op[1]]
+                try:
+                    rsize = w.ref.getsize(rh.name)
+                    if op[0] == "seek":
+                        base = 0 if op[3] == 0 else (rh.pos if op[3] == 1 else rsize)
+                        if op[3] in (0, 1, 2) and base + op[2] > rsize:
+                            continue
+                    elif op[0] == "write" and rh.pos > rsize and not rh.mode.appending:
+                        continue
+                    elif op[0] == "truncate" and (len(op) < 3 or op[2] is None) and rh.pos > rsize:
+                        continue
+                except Exception:  # noqa
+                    pass
             got = run_op(w.fs, op, w.handles)
             if got[0] == "err":
                 stats["errors"][got[1]] = stats["errors"].get(got[1], 0) + 1
@@ -100,17 +123,35 @@ def check_history(cfg, ops, remount_every=1, want=None, stop_on_first=False):
                 continue
             exp = run_op(w.ref, op, w.rhandles)
             if got != exp:
+                pr = ["C02"] if op[0] in IO_OPS else ["C01"]
                 if got[0] == "err" and not is_sanctioned(got[1]):
-                    add(["C01", "C09"], "internal-error", "%s raised %s (reference: %s)" % (opkind(op), got[1], exp), i)
+                    add(pr + ["C09"], "internal-error", "%s raised %s (reference: %s)" % (opkind(op), got[1], exp), i)
                 elif got[0] == "err" or exp[0] == "err":
-                    add(["C01"], "error-class", "%s: got %s, reference %s" % (opkind(op), got, exp), i)
+                    add(pr, "error-class", "%s: got %s, reference %s" % (opkind(op), got, exp), i)
                 else:
-                    add(["C01"], "result", "%s: got %s, reference %s" % (opkind(op), str(got)[:120], str(exp)[:120]), i)
+                    add(pr, "result", "%s: got %s, reference %s" % (opkind(op), str(got)[:120], str(exp)[:120]), i)
                 if stop_on_first and findings:
                     break
                 # keep the two sides aligned as far as possible
                 if got[0] != exp[0]:
                     break
+            if io_frame and op[0] in ("write", "truncate", "close") and got[0] == "ok":
+                # C02 frame: no other file's bytes may change (files with an open handle are read at close)
+                try:
+                    busy = {p_ for p_ in w.cfg.get("_paths", []) if any(str(getattr(h, "name", "")).lstrip("/") == p_.lstrip("/")
+                                                                          for h in w.handles.values())}
+                    for p_ in w.cfg.get("_paths", []):
+                        if p_ in busy:
+                            continue
+                        if w.ref.exists(p_) != w.fs.exists(p_):
+                            add(["C02"], "io-file-existence", "%s after %s" % (p_, opkind(op)), i)
+                        elif w.ref.exists(p_) and w.ref.readbytes(p_) != w.fs.readbytes(p_):
+                            a_, b_ = w.ref.readbytes(p_), w.fs.readbytes(p_)
+                            first = next((k for k in range(min(len(a_), len(b_))) if a_[k] != b_[k]), min(len(a_), len(b_)))
+                            add(["C02"], "io-content", "%s differs after %s: len %d vs %d, first difference at %d"
+                                % (p_, opkind(op), len(b_), len(a_), first), i)
+                except Exception as e:  # noqa
+                    add(["C02"], "io-readback-raises", "%s after %s" % (common.exc_class(e), opkind(op)), i)
             if op[0] in MUTATORS and not w.handles and remount_every and (i % remount_every == 0 or i == len(ops) - 1):
                 try:
                     live = walk_fs(w.fs, with_times=True)
@@ -191,7 +232,8 @@ def shrink(cfg, ops, kind, budget=120, seconds=40):
     def bad(o):
         tries[0] += 1
         try:
-            f, _ = check_history(cfg, o, remount_every=1 if kind.startswith("remount") else 0, want=want, stop_on_first=False)
+            f, _ = check_history(cfg, o, remount_every=1 if kind.startswith("remount") else 0, want=want, stop_on_first=False,
+                                 io_frame="_paths" in cfg)
         except Exception:  # noqa
             return False
         return any(x.kind == kind for x in f)
@@ -230,6 +272,13 @@ def report(res, cfg, ops, findings, suite, shrink_budget=60, seen=None):
         else:
             small = shrink(cfg, ops[:min(len(ops), f.step + 1)] if f.step < len(ops) else ops, kind, shrink_budget)
             sig = signature_of(kind, small)
+            try:
+                again, _ = check_history(cfg, small, want={kind}, io_frame="_paths" in cfg)
+                again = [x for x in again if x.kind == kind]
+                if again:
+                    f = again[0]       # describe the failure of the shrunk history, not of the original one
+            except Exception:  # noqa
+                pass
             if seen is not None:
                 seen[kind] = seen.get(kind, 0) + 1
         if sig is None:
